@@ -12,6 +12,8 @@ depend on I, and with I empty no entry of the CPDAG is touched: dag_to_icpdag(G,
 the result is returned under `is_consistent_extension(G, P)`; (RULES) rule_1 / rule_2 equal their set-theoretic
 definitions in every Venn world of the two sets involved; rule_3 / rule_4, which quantify over elements, are decided
 role by role (witness sets as set expressions, distinct witnesses, the literal non-adjacency test).
+Also decided: the CPDAG construction dag_to_icpdag starts from (C08's rules), canonical v-structure triples (C16's), and that the
+repeat-until-stable flag of maximally_orient starts at False and is only ever raised inside a pass.
 Not decided: exactness of the class and of the essential graph (soundness / completeness of the rule set, C09).
 """
 from .common import *
